@@ -8,6 +8,8 @@ import (
 	"encoding/hex"
 	"fmt"
 	"strings"
+
+	"github.com/tikv/client-go/v2/internal/unionstore/arena"
 )
 
 func verifEnc(b []byte) string {
@@ -104,4 +106,34 @@ func (t *ART) VerifSeekFirst(lo []byte) string {
 		return "end"
 	}
 	return "L" + verifEnc(leaf.asLeaf(&t.allocator).GetKey())
+}
+
+// VerifRange runs Iterator.init for the bounds (nil or empty = unbounded) and then walks the raw leaves the way
+// Iterator.Next does (stop after the leaf at endAddr), without skipping leaves that hold no value: every leaf between
+// the two seek positions, including flags-only and undone ones.
+func (t *ART) VerifRange(lo, hi []byte, reverse bool) string {
+	it := &Iterator{
+		tree: t, reverse: reverse, valid: true, includeFlags: true,
+		inner:    &baseIter{allocator: &t.allocator},
+		currAddr: arena.BadAddr, endAddr: arena.NullAddr, seqNo: t.WriteSeqNo, ignoreSeqNo: true,
+	}
+	it.init(lo, hi)
+	var keys []string
+	for it.valid && len(keys) < 5000 {
+		if it.currAddr == it.endAddr {
+			break
+		}
+		var leaf artNode
+		if reverse {
+			leaf = it.inner.prev()
+		} else {
+			leaf = it.inner.next()
+		}
+		if leaf.addr.IsNull() {
+			break
+		}
+		it.currAddr = leaf.addr
+		keys = append(keys, verifEnc(leaf.asLeaf(&t.allocator).GetKey()))
+	}
+	return "ks:" + strings.Join(keys, ",")
 }
